@@ -108,6 +108,8 @@ def concrete_prefixes(rng, idxs):
                 p += b"z"
         else:
             p = pool.pop()
+            while p in m.values():          # (a random prefix drawn earlier may coincide with a pool entry)
+                p = pool.pop()
         m[i] = p
     return m
 
